@@ -86,106 +86,57 @@ func ParseSequenceFile(data []byte) (*SequenceData, error) {
 }
 
 // parseSequenceTuple parses the sequence tuple data
-// PostgreSQL sequence tuple format (FormData_pg_sequence):
-// seqtypid (4), seqstart (8), seqincrement (8), seqmax (8), seqmin (8), seqcache (8), seqcycle (1)
-// Plus the SEQ_LOG_VALS section: last_value (8), is_called (1)
+// Since PostgreSQL 10 the sequence relation stores only the runtime state
+// (FormData_pg_sequence_data): last_value (8), log_cnt (8), is_called (1);
+// the sequence parameters live in the pg_sequence catalog.
 func parseSequenceTuple(data []byte) (*SequenceData, error) {
 	seq := &SequenceData{}
-
-	// For older PostgreSQL versions, the format is different
-	// Let's try to detect based on data patterns
 
 	if len(data) < 8 {
 		return nil, fmt.Errorf("sequence data too short")
 	}
 
+	if len(data) < 57 {
+		// Runtime-only data (PG 10+): last_value at 0, log_cnt at 8, is_called at 16
+		seq.LastValue = int64(binary.LittleEndian.Uint64(data[0:8]))
+		if len(data) >= 17 {
+			seq.IsCalled = data[16] != 0
+		}
+		return seq, nil
+	}
+
+	// Old format (PG 9.x and earlier)
+	// Format: last_value (8), start_value (8), increment_by (8), max_value (8),
+	//         min_value (8), cache_value (8), log_cnt (8), is_cycled (1), is_called (1)
 	offset := 0
 
-	// Try to determine format by looking at the data
-	// Modern format (PG 10+): seqtypid, seqstart, seqincrement, seqmax, seqmin, seqcache, seqcycle
-	// Plus runtime: last_value, log_cnt, is_called
+	seq.LastValue = int64(binary.LittleEndian.Uint64(data[offset:]))
+	offset += 8
 
-	// Check if first 4 bytes look like a type OID (20=int8, 21=int2, 23=int4)
-	firstVal := binary.LittleEndian.Uint32(data[0:4])
-	
-	if firstVal == 20 || firstVal == 21 || firstVal == 23 {
-		// Modern format (PG 10+)
-		offset = 4 // Skip seqtypid
-		
-		if len(data) < offset+48 {
-			return nil, fmt.Errorf("sequence data too short for modern format")
-		}
+	seq.StartValue = int64(binary.LittleEndian.Uint64(data[offset:]))
+	offset += 8
 
-		seq.StartValue = int64(binary.LittleEndian.Uint64(data[offset:]))
-		offset += 8
+	seq.IncrementBy = int64(binary.LittleEndian.Uint64(data[offset:]))
+	offset += 8
 
-		seq.IncrementBy = int64(binary.LittleEndian.Uint64(data[offset:]))
-		offset += 8
+	seq.MaxValue = int64(binary.LittleEndian.Uint64(data[offset:]))
+	offset += 8
 
-		seq.MaxValue = int64(binary.LittleEndian.Uint64(data[offset:]))
-		offset += 8
+	seq.MinValue = int64(binary.LittleEndian.Uint64(data[offset:]))
+	offset += 8
 
-		seq.MinValue = int64(binary.LittleEndian.Uint64(data[offset:]))
-		offset += 8
+	seq.CacheValue = int64(binary.LittleEndian.Uint64(data[offset:]))
+	offset += 8
 
-		seq.CacheValue = int64(binary.LittleEndian.Uint64(data[offset:]))
-		offset += 8
+	// log_cnt
+	offset += 8
 
+	if len(data) > offset {
 		seq.IsCycled = data[offset] != 0
 		offset++
-
-		// Align to 8 bytes for runtime data
-		offset = (offset + 7) &^ 7
-
-		if len(data) >= offset+9 {
-			seq.LastValue = int64(binary.LittleEndian.Uint64(data[offset:]))
-			offset += 8
-			// Skip log_cnt
-			if len(data) > offset {
-				seq.IsCalled = data[offset] != 0
-			}
-		}
-	} else {
-		// Old format (PG 9.x and earlier) or runtime-only data
-		// Format: last_value (8), start_value (8), increment_by (8), max_value (8), 
-		//         min_value (8), cache_value (8), log_cnt (8), is_cycled (1), is_called (1)
-		
-		if len(data) < 57 {
-			// Minimal format: just last_value
-			if len(data) >= 8 {
-				seq.LastValue = int64(binary.LittleEndian.Uint64(data[0:8]))
-			}
-			return seq, nil
-		}
-
-		seq.LastValue = int64(binary.LittleEndian.Uint64(data[offset:]))
-		offset += 8
-
-		seq.StartValue = int64(binary.LittleEndian.Uint64(data[offset:]))
-		offset += 8
-
-		seq.IncrementBy = int64(binary.LittleEndian.Uint64(data[offset:]))
-		offset += 8
-
-		seq.MaxValue = int64(binary.LittleEndian.Uint64(data[offset:]))
-		offset += 8
-
-		seq.MinValue = int64(binary.LittleEndian.Uint64(data[offset:]))
-		offset += 8
-
-		seq.CacheValue = int64(binary.LittleEndian.Uint64(data[offset:]))
-		offset += 8
-
-		// log_cnt
-		offset += 8
-
-		if len(data) > offset {
-			seq.IsCycled = data[offset] != 0
-			offset++
-		}
-		if len(data) > offset {
-			seq.IsCalled = data[offset] != 0
-		}
+	}
+	if len(data) > offset {
+		seq.IsCalled = data[offset] != 0
 	}
 
 	return seq, nil
